@@ -1,8 +1,10 @@
 #!/bin/sh
-# MANIFEST.setup_cmd: build the Lean library + the native model driver, offline.
+# MANIFEST.setup_cmd: regenerate AQ/Gen from /repo, build the Lean library, every
+# property module and the native model driver, offline.
 set -e
 cd "$(dirname "$0")"
 mkdir -p evidence replays lean/AQ/Gen
-[ -x tools/pregen.sh ] && tools/pregen.sh
+tools/pregen.sh
 cd lean
 lake build
+lake build $(ls AQ/Props/*.lean | sed 's#/#.#g; s#\.lean$##')
